@@ -2,3 +2,5 @@ import AriesVerif.C11.Props
 import AriesVerif.C11.Drv
 import AriesVerif.C15.Props
 import AriesVerif.C15.Drv
+import AriesVerif.C19.Props
+import AriesVerif.C19.Drv
